@@ -11,8 +11,8 @@ modes
   sympy  <out.ndjson> <n> <seed>                 deterministic polynomial identity / non-identity families, n seeded random
                                                  (in)equalities and disequalities over polynomials and rational functions with and
                                                  without an interval-membership premise, and a few transcendental goals (recorded, never judged)
-  mixed  <out_z3> <out_sympy> <nz3> <nsympy> <seed> <stride>   z3rand then sympy in one process (stride: take every stride-th
-                                                 interval of the deterministic SymPy family)
+  mixed  <out_z3> <out_sympy> <nz3> <nsympy> <seed> <stride>   z3rand then sympy in one process (stride > 1 = quick tier: every stride-th interval
+                                                 of the SymPy family, every stride-th function type and one premise set of the history family)
   event  <in.ndjson> <out.ndjson>                re-run recorded events (replay of a finding)
 Events: {tid, key, solver, goal, prems, acc "yes"|"no"|"exc", exc, flag (z3wrapper.check_z3), src}.
 goal / prems are structural projections of the REAL terms given to the bridge (applied form of spec/C06_Sem.tla).
@@ -516,7 +516,7 @@ REPO_TEST_GOALS = [
 ]
 
 
-def z3_family():
+def z3_family(thin=1):
     """deterministic goals around the special cases of the translation (nodes)"""
     gs = []
     for T in ("nat", "int"):
@@ -649,18 +649,18 @@ def z3_family():
         Q("all", "z", "real", Op("implies", "bool", memr(B(0, "real"), ivc(r0, r1)), Rel("less", B(0, "real"), r1))),
     ]
     gs += iv
-    gs += function_equalities()
+    gs += function_equalities(thin)
     return gs
 
 
-def function_equalities():
+def function_equalities(thin=1):
     """equality at function types: between function variables, lambda terms, partial applications; as premise and as
     conclusion, positive and negated"""
     gs = []
     F_ = Op("false", "bool")
     p = V("p", "bool")
     for A, B, el in (("nat", "nat", V("x", "nat")), ("'a", "'a", V("a", "'a")), ("'a", "bool", V("a", "'a")), ("nat", "bool", V("x", "nat")),
-                     ("real", "real", V("r", "real")), ("int", "int", V("i", "int"))):
+                     ("real", "real", V("r", "real")), ("int", "int", V("i", "int")))[::thin]:
         FT = "(%s=>%s)" % (A, B)
         f, g = V("f", FT), V("g", FT)
         fx = lambda h, t: App(h, B, t)  # noqa: E731
@@ -700,7 +700,7 @@ def B_(k, T):
     return B(k, T)
 
 
-def history_family():
+def history_family(thin=1):
     """(premises, conclusion) whose conclusion is hard or impossible to translate; the driver follows every step that RAISES
     with the premises as goals of their own (follow_up)"""
     m, n, r = V("m", "nat"), V("n", "nat"), V("r", "real")
@@ -720,7 +720,7 @@ def history_family():
         Op("xor", "bool", Rel("less", N("nat", 1), N("nat", 2)), p),
     ]
     out = []
-    for ps in prem_sets:
+    for ps in (prem_sets if thin == 1 else prem_sets[:1]):
         for c in hard:
             out.append((ps, c))
     return out
@@ -809,7 +809,7 @@ class Gen:
         return g
 
 
-def mode_z3rand(out_path, n, seed, do_setup=True):
+def mode_z3rand(out_path, n, seed, do_setup=True, thin=1):
     if do_setup:
         setup()
     from syntax import parser
@@ -819,7 +819,7 @@ def mode_z3rand(out_path, n, seed, do_setup=True):
         context.set_context("misc", vars=vars_)
         t = parser.parse_term(s)
         run_z3(out, t, [], "repo-test", routes=("solve",))
-    for i, j in enumerate(z3_family()):
+    for i, j in enumerate(z3_family(thin)):
         t = build(j)
         t.checked_get_type()
         assert enc(t) == j, "c06: family goal does not round-trip: %r" % (j,)
@@ -830,7 +830,7 @@ def mode_z3rand(out_path, n, seed, do_setup=True):
         cj = clash_variant(j)
         if cj is not None and i % 3 == 0:
             run_z3(out, build(cj), [], "family:%d:clash" % i, routes=("solve",))
-    for i, (ps, c) in enumerate(history_family()):
+    for i, (ps, c) in enumerate(history_family(thin)):
         # goals tried one after the other in this process: a failing step, then its premises as goals (follow_up)
         run_z3(out, build(c), [build(p) for p in ps], "history:%d" % i, routes=("solve", "macro"))
     rng = random.Random(seed * 7919 + 6)
@@ -1118,7 +1118,7 @@ def main(argv):
         mode_sympy(argv[1], int(argv[2]), int(argv[3]))
     elif mode == "mixed":                        # one process (one theory load) for both input-independent drivers
         setup()
-        mode_z3rand(argv[1], int(argv[3]), int(argv[5]), do_setup=False)
+        mode_z3rand(argv[1], int(argv[3]), int(argv[5]), do_setup=False, thin=int(argv[6]))
         mode_sympy(argv[2], int(argv[4]), int(argv[5]), do_setup=False, stride=int(argv[6]))
     elif mode == "event":
         mode_event(argv[1], argv[2])
